@@ -49,4 +49,12 @@ theorem no_odd_strings :
     oddM = (List.range 5).map (fun k => (k, [])) ∧ oddN = (List.range 4).map (fun k => (k, [])) := by
   constructor <;> decide
 
+/-- **Finding N1 stays repaired**: on the three witness strings (`h//m`, `h//m:t`, `h:80//m`) the real
+    `names.Parse(w).IsValid()` of the working tree is what the model of the CURRENT tree (`isValidNCur`, under which
+    `roundtrip_names_bare` is proved) says: invalid.  A tree in which the repair is reverted fails this `decide`. -/
+theorem n1_variant_is_repaired :
+    n1Probe = [[104, 47, 47, 109], [104, 47, 47, 109, 58, 116], [104, 58, 56, 48, 47, 47, 109]].map
+      (fun w => isValidNCur (parseN w)) ∧ n1Probe = [false, false, false] := by
+  constructor <;> decide
+
 end OllamaVerif.Tie.C13
